@@ -48,14 +48,12 @@ Theorem abort_blocks_released : forall c b, fin b = false -> no_live_tr c (rel_b
 Proof. exact rel_blk_no_live. Qed.
 Print Assumptions abort_blocks_released.
 
-(* REFUTED part of abort_releases_all: the PeerInfo transfer counter does not return to 0 when a transfer of the
-   peer was marked dissimilar (the erased BlockTransfer keeps peer_info and is dropped, not deleted). Witness =
-   scenario 'dis' of harness/c16.cc (corpus/C16/witnesses.case), replayed on the real code. *)
-Theorem abort_transfer_counter_refuted :
-  exists ops, let s := run false ops in
-    rej s = false /\ g s = vz /\ exists r, get_row 1 (rows s) = Some r /\ row_zero r = true /\ tc r = 1.
-Proof. exists leak_ops. exact tc_leak_witness. Qed.
-Print Assumptions abort_transfer_counter_refuted.
+(* the former leak witness: with a dissimilar transfer the counter now returns to 0 *)
+Theorem former_leak_example :
+  let s := run false leak_ops in
+  rej s = false /\ g s = vz /\ (exists r, get_row 1 (rows s) = Some r /\ row_zero r = true /\ tc r = 0).
+Proof. exact Proofs.former_leak_example. Qed.
+Print Assumptions former_leak_example.
 
 Theorem params_ok_now :
   Params.c16_hs_part1 = 48%N /\ Params.c16_hs_size = 68%N /\ Params.c16_piece_hdr = 13%N /\ (0 < Params.c16_max_size_pex)%Z.
